@@ -663,8 +663,13 @@ void XMLUri::initialize(const XMLUri* const baseURI
         {
 			// Find start of <segment> within substring ending at found point.
             index = XMLString::stringLen(path) - 3;
-			XMLString::subString(tmp1, path, 0, index-1, fMemoryManager);
-			segIndex = XMLString::lastIndexOf(tmp1, chForwardSlash);
+            // path is exactly "/..": there is no <segment> (and no index-1)
+            segIndex = -1;
+            if (index > 0)
+            {
+                XMLString::subString(tmp1, path, 0, index-1, fMemoryManager);
+                segIndex = XMLString::lastIndexOf(tmp1, chForwardSlash);
+            }
 
             if (segIndex != -1                &&
                 (path[segIndex+1] != chPeriod ||
